@@ -344,10 +344,120 @@ def _subst_node(root, target, repl):
     return o
 
 
+def _bool_literal(e):
+    while isinstance(e, dict) and e.get('k') in ('ParenExpr',) and e.get('c'):
+        e = e['c'][0]
+    if isinstance(e, dict) and e.get('k') == 'CXXBoolLiteralExpr':
+        return bool(e.get('val'))
+    return None
+
+
+def recorded_flags(stmt):
+    """{dloc: VarDecl} of the bool locals declared inside stmt that only *record a decision*: every use is either a record (`bool f = E;`, `f = E;` as a
+    statement of the structured part of stmt) or an atomic test of a condition (`if (f)`, `if (!f && ..)`, `f ? a : b` of a return).  Branching on such a
+    flag is branching on E at the time it was recorded."""
+    decls = {}
+    for n in walk(stmt):
+        if n.get('k') == 'VarDecl' and (n.get('t') or '').replace('const ', '') == 'bool' and n.get('loc') and not n.get('bindings'):
+            decls[n['loc']] = n
+    if not decls:
+        return {}
+    ok_refs = set()         # id() of the DeclRefExprs that are records / tests
+    records = set()
+
+    def atoms_of(cond):
+        for atoms, _o in decisions(cond):
+            for a, _p in atoms:
+                if a.get('k') == 'DeclRefExpr' and a.get('dloc') in decls:
+                    ok_refs.add(id(a))
+
+    def structured(s):
+        """visits the statements that enum_paths decomposes; records found anywhere else disqualify the flag"""
+        if s is None:
+            return
+        k = s.get('k')
+        if k == 'CompoundStmt':
+            for c in s.get('c') or ():
+                structured(c)
+        elif k == 'IfStmt':
+            sl = s['slots']
+            atoms_of(sl.get('cond'))
+            structured(sl.get('init'))
+            structured(sl.get('then'))
+            structured(sl.get('else'))
+        elif k == 'SwitchStmt':
+            for labels, st in switch_arms(s):
+                structured(st)
+        elif k in ('AttributedStmt', 'LabelStmt', 'CaseStmt', 'DefaultStmt'):
+            c = s.get('c') or []
+            if c:
+                structured(c[-1])
+        elif k == 'ReturnStmt':
+            e = (s.get('c') or [None])[0]
+            x = _first_conditional(e)
+            if isinstance(x, dict) and x.get('k') == 'ConditionalOperator':
+                atoms_of(x['c'][0])
+        elif k == 'DeclStmt':
+            ds = [d for d in (s.get('c') or ()) if d.get('k') == 'VarDecl']
+            if len(ds) == 1 and ds[0].get('loc') in decls and len(s.get('c') or ()) == 1:
+                records.add(id(s))
+        elif k == 'BinaryOperator' and s.get('op') == '=' and s['c'][0].get('k') == 'DeclRefExpr' and s['c'][0].get('dloc') in decls:
+            ok_refs.add(id(s['c'][0]))
+            records.add(id(s))
+    structured(stmt)
+    bad = set()
+    for n in walk(stmt):
+        if n.get('k') == 'DeclRefExpr' and n.get('dloc') in decls and id(n) not in ok_refs:
+            bad.add(n['dloc'])
+        if n.get('k') == 'DeclStmt' and id(n) not in records:
+            # declared somewhere the path enumeration keeps opaque (inside a loop), or together with other variables: not tracked
+            for d in n.get('c') or ():
+                if d.get('k') == 'VarDecl' and d.get('loc') in decls:
+                    bad.add(d['loc'])
+    return {d: v for d, v in decls.items() if d not in bad}
+
+
 def enum_paths(stmt, limit=4000):
     """All acyclic paths through a statement made of compound / if / switch /
     return / throw; loops, try blocks and everything else are opaque single
-    steps.  Returns a list of Path with end in {'return','throw','fall','break','continue'}."""
+    steps.  Returns a list of Path with end in {'return','throw','fall','break','continue'}.
+    A bool local that only records a decision (recorded_flags) is not a variable of the paths: recording it branches on the recorded condition, testing
+    it later selects the paths on which it was recorded that way."""
+    flags = recorded_flags(stmt) if isinstance(stmt, dict) else {}
+    if flags:
+        tested = {n['dloc'] for n in walk(stmt) if n.get('k') == 'DeclRefExpr' and n.get('dloc') in flags}
+        flags = {d: v for d, v in flags.items() if d in tested}
+
+    def record(s, dloc, e):
+        """paths of a statement that records decision e in flag dloc"""
+        if e is None:
+            return [Path((), (), 'fall', None, seq=(('f', (dloc, None)),))]
+        lit = _bool_literal(e)
+        if lit is not None:
+            return [Path((), (), 'fall', None, seq=(('f', (dloc, lit)),))]
+        out = []
+        for atoms, outcome in decisions(e):
+            cs = tuple(('if', n, pol) for n, pol in atoms)
+            out.append(Path(cs, (), 'fall', None, seq=tuple(('c', c) for c in cs) + (('f', (dloc, outcome)),)))
+        return out
+
+    def resolve(p):
+        state = {}
+        conds, stmts, seq = [], [], []
+        for kind, x in p.seq:
+            if kind == 'f':
+                if x[1] is None:
+                    state.pop(x[0], None)
+                else:
+                    state[x[0]] = x[1]
+                continue
+            if kind == 'c' and x[0] == 'if' and x[1].get('k') == 'DeclRefExpr' and x[1].get('dloc') in state:
+                if state[x[1]['dloc']] != x[2]:
+                    return None
+                continue
+            (conds if kind == 'c' else stmts).append(x)
+            seq.append((kind, x))
+        return Path(conds, stmts, p.end, p.endnode, seq=seq)
 
     def join(p, q):
         return Path(p.conds + q.conds, p.stmts + q.stmts, q.end, q.endnode, seq=p.seq + q.seq)
@@ -373,6 +483,13 @@ def enum_paths(stmt, limit=4000):
         if s is None:
             return [Path(end='fall')]
         kind = s.get('k')
+        if flags:
+            if kind == 'DeclStmt':
+                ds = [d for d in (s.get('c') or ()) if d.get('k') == 'VarDecl']
+                if len(ds) == 1 and ds[0].get('loc') in flags:
+                    return record(s, ds[0]['loc'], ds[0].get('init') if isinstance(ds[0].get('init'), dict) else None)
+            if kind == 'BinaryOperator' and s.get('op') == '=' and s['c'][0].get('k') == 'DeclRefExpr' and s['c'][0].get('dloc') in flags:
+                return record(s, s['c'][0]['dloc'], s['c'][1])
         if kind == 'CompoundStmt':
             return seq(list(s.get('c') or ()))
         if kind == 'ReturnStmt':
@@ -436,7 +553,9 @@ def enum_paths(stmt, limit=4000):
                 return [Path((), (s,), 'loop', s)]      # never falls through: left only by return / throw inside (opaque here)
         return [Path((), (s,), 'fall', None)]
 
-    return paths(stmt)
+    if not flags:
+        return paths(stmt)
+    return [q for q in (resolve(p) for p in paths(stmt)) if q is not None]
 
 
 def region_of(f, n):
